@@ -33,25 +33,108 @@ def run(chk):
             chk.sample({"first_events": events[:10]})
         vlib.report_trace_violations(chk, res, events, label="lockset analysis of observed accesses")
         log("[trace] run %d: %d distinct accesses (%s probe hits), %d racing events" % (i, len(events) - 1, events[0].get("probes"), len(res["viol"])))
-    if thorough:
-        # ThreadSanitizer watches the same scenario (monitor for accesses that carry no probe)
-        bt = vlib.build("conc", "tsan")["conc"]
-        rc, out = vlib.sh([bt, os.path.join(wd, "tsan.ndjson"), os.path.join(wd, "dir"), "60", str(chk.seed)], timeout=1500, check=False,
-                          env={"TSAN_OPTIONS": "halt_on_error=0 report_signal_unsafe=0 history_size=4"})
-        pairs = set()
-        for rep in out.split("WARNING: ThreadSanitizer: data race")[1:]:
-            fr = re.findall(r"#\d+ ([\w:~<>]+)\(?[^\n]*?/repo/src/([\w/]+\.cpp):\d+", rep)
-            fns = []
-            for fn, f in fr:
-                if fn not in fns:
-                    fns.append(fn)
-            if fns:
-                pairs.add(" / ".join(sorted(fns[:2])))
-        chk.cov["tsan_reports_in_repo_frames"] = sorted(pairs)[:40]
-        log("[tsan] %d distinct race reports with /repo frames" % len(pairs))
+    # second observer: ThreadSanitizer watches the same scenario and sees accesses that carry no probe.  Each of its race reports
+    # becomes two access events (site = innermost function of the tree under test, lockset = the mutexes TSan saw held) and the same
+    # trace specification judges them; an access pair on state the probes do not cover forms a group of its own
+    tsan_observe(chk, wd, 60 if thorough else 25)
     chk.assumptions += ["locksets are observed by interposing pthread_mutex_lock/trylock/unlock in the driver; accesses are observed at the guarded probe sites only",
                         "Eraser-style lockset discipline: a conflicting pair with disjoint locksets is reported even if the two accesses were ordered by chance in this run",
                         "accesses before the daemon's threads exist (construction) are not recorded; the scenario arms the probes before start_transport"]
+
+
+KNOWN_GROUP = (("KeyManager::", "key_contexts"), ("Node::preferred_control_endpoints", "advertised_endpoints"),
+               ("Node::refresh_advertised_endpoints", "advertised_endpoints"))
+TRANSPORT_CLASSES = ("SessionManager", "ControlServer", "ControlClient", "ControlPlane", "RelayClient", "StructuredLogger", "Impl")
+
+
+def _short(fn):
+    fn = re.sub(r"\(.*$", "", fn.strip())
+    fn = re.sub(r"<[^<>]*>", "", fn)
+    parts = [x for x in fn.split("::") if x and x not in ("ephemeralnet", "network", "core", "daemon", "crypto", "protocol", "dht", "storage", "security")]
+    return "::".join(parts[-2:]) if parts else fn
+
+
+def tsan_reports(text, repo):
+    """[(group or None, [(site, w, tid, locks), (site, w, tid, locks)])] of the data-race reports whose stacks reach the tree under test"""
+    out = []
+    for rep in text.split("WARNING: ThreadSanitizer: data race")[1:]:
+        rep = rep.split("==================")[0]
+        secs = re.split(r"\n  (?=(?:Previous )?(?:[Aa]tomic )?(?:[Ww]rite|[Rr]ead) of size)", rep)
+        acc = []
+        files = []
+        for sec in secs[1:3]:
+            head = sec.split("\n", 1)[0]
+            w = "rite" in head.split(" of size")[0]
+            tid = re.search(r"by (main thread|thread T(\d+))", head)
+            t = 0 if not tid or tid.group(2) is None else int(tid.group(2))
+            locks = sorted(set(re.findall(r"\bM\d+\b", head)))
+            frames = re.findall(r"#\d+ (.+?) %s/((?:src|include)/[\w/\.\-]+):\d+" % re.escape(repo), sec.split("\n\n")[0])
+            if not frames:
+                acc = []
+                break
+            files += [f for _, f in frames]
+            acc.append((_short(frames[0][0]), w, t, locks, [_short(fn) for fn, _ in frames]))
+        if len(acc) != 2:
+            continue
+        allfns = acc[0][4] + acc[1][4]
+        group = None
+        for pat, g in KNOWN_GROUP:
+            if any(pat in fn for fn in allfns):
+                group = g
+                break
+        if group is None:
+            inner = [acc[0][0], acc[1][0]]
+            if all(fn.split("::")[0] in TRANSPORT_CLASSES for fn in inner):
+                # inside the transport / control classes: Session::key replaced by register_peer_key while the session's threads read it
+                # is the session_key group; their sockets and own records are not node state
+                if any("register_peer_key" in fn for fn in inner):
+                    group = "session_key"
+                else:
+                    continue
+            else:
+                group = "unprobed:" + "~".join(sorted(set(inner)))
+        out.append((group, [a[:4] for a in acc]))
+    return out
+
+
+def tsan_observe(chk, wd, rounds):
+    import glob, json
+    bt = vlib.build("conc", "tsan")["conc"]
+    logp = os.path.join(wd, "tsanlog")
+    for f in glob.glob(logp + ".*"):
+        os.remove(f)
+    rc, out = vlib.sh([bt, os.path.join(wd, "tsan.ndjson"), os.path.join(wd, "dir-tsan"), str(rounds), str(chk.seed)], timeout=1500, check=False,
+                      env={"TSAN_OPTIONS": "halt_on_error=0 report_signal_unsafe=0 history_size=4 exitcode=0 log_path=" + logp})
+    if rc not in (0, 4, 66):
+        raise vlib.MachineryError("conc driver (tsan) failed rc=%d\n%s" % (rc, out[-2000:]))
+    text = "".join(open(f, errors="replace").read() for f in sorted(glob.glob(logp + ".*")))
+    reps = tsan_reports(text, vlib.REPO.rstrip("/"))
+    sites = sorted({a[0] for _, accs in reps for a in accs})
+    events = [{"op": "reset", "probes": 0, "observer": "tsan", "reports": len(reps)}]
+    seen = set()
+    for k, (group, accs) in enumerate(reps):
+        key = (group, tuple(sorted((a[0], a[1]) for a in accs)))
+        if key in seen:
+            continue
+        seen.add(key)
+        for site, w, tid, locks in accs:
+            events.append({"op": "access", "obj": len(seen), "group": group, "site": "tsan:" + site, "sid": sites.index(site), "w": w, "tid": tid + 1000 * (accs[0][2] == accs[1][2] and site == accs[1][0]),
+                           "locks": locks})
+    trace = os.path.join(wd, "tsan-accesses.ndjson")
+    with open(trace, "w") as f:
+        for e in events:
+            f.write(json.dumps(e) + "\n")
+    res = vlib.validate("ConcurrencyTrace", trace)
+    chk.add_traces(1, len(events), res, "thread-sanitizer-observer")
+    for e in events[1:]:
+        chk.nontrivial(["tsan", e["group"], e["site"], e["w"]])
+    chk.cov["tsan_race_reports"] = len(reps)
+    chk.cov["tsan_groups"] = sorted({g for g, _ in reps})[:40]
+    vlib.report_trace_violations(chk, res, events, label="ThreadSanitizer reports judged by the lockset contract")
+    log("[tsan] %d data-race reports reaching the tree under test, %d distinct access pairs, groups %s, %d racing events" % (
+        len(reps), len(seen), sorted({g for g, _ in reps}), len(res["viol"])))
+    chk.assumptions.append("ThreadSanitizer (g++ -fsanitize=thread) is a second observer of accesses: a report is turned into two access events with the locks TSan saw held; "
+                           "reports whose stacks stay inside SessionManager / ControlServer / RelayClient (sockets, their own records) are not node state and are not judged")
 
 
 def replay(chk, path):
